@@ -194,7 +194,8 @@ Endian Deserializer::setEndian(Endian e)
 
 bool Deserializer::checkSize(size_t need_size) const
 {
-    return (pos_ + need_size) <= size_;
+    //! pos_ <= size_ 恒成立；不用 pos_ + need_size，避免 need_size 很大时回绕
+    return need_size <= (size_ - pos_);
 }
 
 bool Deserializer::set_pos(size_t pos) {
